@@ -129,6 +129,22 @@ func c19check(adds []c19add, mutable, walStore *lib.MemStore, tag string, viol f
 			case err != nil:
 				viol("C19|list-error|"+shape+"|"+tag, fmt.Sprintf("ListEntries(from=%s,max=%d): %v", from, max, err))
 			default:
+				if max == 1000 {
+					// look-back by append time: an entry whose append started within 20 minutes before the start token's
+					// time must be listed, whatever time its own token carries
+					if k, perr := ksuid.Parse(from); perr == nil {
+						inList := map[string]bool{}
+						for _, g := range got {
+							inList[g.Token] = true
+						}
+						for _, a := range ok {
+							if a.Start.Unix() >= k.Time().Unix()-20*60 && !inList[a.Token] {
+								viol("C19|entry-appended-in-look-back-window-not-listed|"+tag, fmt.Sprintf("ListEntries(from=%s [%s], max=%d) misses the entry appended at %s (token %s): it was appended less than 20 minutes before the start token's time", from, k.Time().UTC().Format("15:04:05"), max, a.Start.UTC().Format("15:04:05"), a.Token))
+								break
+							}
+						}
+					}
+				}
 				if len(got) != len(exp) {
 					viol("C19|list-count|"+shape+"|"+tag, fmt.Sprintf("ListEntries(from=%s,max=%d) returned %d entries, want %d", from, max, len(got), len(exp)))
 					continue
@@ -178,7 +194,7 @@ func TestC19(t *testing.T) {
 }
 
 func c19body(t *testing.T, rep *lib.Report, journal func(string)) {
-	rep.Rule = "sequential: all histories of <=3 Add over payloads {empty, a, two lines, YAML-looking, 1504 bytes} x a 1s-tick choice between steps, real wal.WAL over the reference store inside a synctest bubble; concurrent: 2 (thorough 3) appenders with Touch/GetAttr/Put gated, all interleavings + tick placements; after each history ListEntries from every issued token and synthetic tokens (±1s, +15min, +20min-1s, +20min, +20min+1s, ±30min: inside, at the edges of and beyond the 20-minute look-back window) x max in {1,2,3,1000}; oracle: unique KSUID tokens ordered across seconds, listing = appended entries with token >= back-dated start, token order, payload byte-identical; distinct = distinct histories/outcomes"
+	rep.Rule = "sequential: all histories of <=3 Add over payloads {empty, a, two lines, YAML-looking, 1504 bytes} (quick: the third is always 'a') x a gap of 0 / 1 s / 25 min between steps, real wal.WAL over the reference store inside a synctest bubble; concurrent: 2 (thorough 3) appenders with Touch/GetAttr/Put gated, all interleavings + tick placements; after each history ListEntries from every issued token and synthetic tokens (±1s, +15min, +20min-1s, +20min, +20min+1s, ±30min: inside, at the edges of and beyond the 20-minute look-back window) x max in {1,2,3,1000}; oracle: unique KSUID tokens ordered across seconds, listing = appended entries with token >= back-dated start and includes every entry whose append started within 20 minutes before the start token's time, token order, payload byte-identical; distinct = distinct histories/outcomes"
 	names := []string{"empty", "a", "twolines", "yamlish", "big"}
 	// ---- sequential histories
 	var hist [][]string
@@ -187,25 +203,37 @@ func c19body(t *testing.T, rep *lib.Report, journal func(string)) {
 		if len(h) > 0 {
 			hist = append(hist, append([]string(nil), h...))
 		}
-		if len(h) == 3 || (!lib.Thorough() && len(h) == 2) {
+		if len(h) == 3 {
 			return
 		}
 		for _, n := range names {
+			if len(h) == 2 && !lib.Thorough() && n != "a" {
+				continue // quick: the third append always carries the payload "a"
+			}
 			gen(append(h, n))
 		}
 	}
 	gen(nil)
+	gaps := []time.Duration{0, time.Second, 25 * time.Minute} // same second / next second / idle for longer than the look-back window
 	for _, h := range hist {
-		for ticks := 0; ticks < 1<<uint(len(h)-1); ticks++ {
+		nt := 1
+		for i := 1; i < len(h); i++ {
+			nt *= len(gaps)
+		}
+		for ticks := 0; ticks < nt; ticks++ {
 			h, ticks := h, ticks
-			journal(fmt.Sprintf("sequential history %v ticks=%b", h, ticks))
+			journal(fmt.Sprintf("sequential history %v ticks=%d", h, ticks))
 			lib.Bubble(t, func() {
 				mutable, ws := lib.NewMemStore("mutable"), lib.NewMemStore("wal")
 				w := wal.New(mutable, ws, wal.Logger(nopLogger))
 				var adds []c19add
+				tk := ticks
 				for i, n := range h {
-					if i > 0 && ticks&(1<<uint(i-1)) != 0 {
-						time.Sleep(time.Second)
+					if i > 0 {
+						if g := gaps[tk%len(gaps)]; g > 0 {
+							time.Sleep(g)
+						}
+						tk /= len(gaps)
 					}
 					a := c19add{Payload: c19payloads[n], Start: time.Now()}
 					a.Token, a.Err = w.Add(context.Background(), a.Payload)
@@ -215,7 +243,7 @@ func c19body(t *testing.T, rep *lib.Report, journal func(string)) {
 				tag := "sequential"
 				rp := map[string]interface{}{"history": h, "tick_mask": ticks}
 				c19check(adds, mutable, ws, tag, func(sig, detail string) {
-					rep.Violate(sig, fmt.Sprintf("history %v ticks=%b: %s", h, ticks, detail), rp)
+					rep.Violate(sig, fmt.Sprintf("history %v gaps(base 3: same second / 1s / 25min)=%d: %s", h, ticks, detail), rp)
 				})
 				rep.Eval(1)
 				rep.AddStates(int64(len(h)+1), int64(len(h)), 1)
